@@ -681,6 +681,10 @@ class Gen:
                 i = r.choice(ps[:1] * 3 + ps)
                 x = int.from_bytes(b[i:i + 4], 'little')
                 x = (x + r.choice([1, -1, 1, -1, 2, 4, -4, 8, 256, 1 << 31])) % (1 << 32)
+                if len(ps) > 1 and r.random() < 0.25:
+                    # a later offset set to exactly 0 (or to the first offset)
+                    i = r.choice(ps[1:])
+                    x = r.choice([0, 0, int.from_bytes(b[ps[0]:ps[0] + 4], 'little')])
                 b[i:i + 4] = x.to_bytes(4, 'little')
                 if r.random() < 0.3:
                     b += bytes(r.getrandbits(8) for _ in range(r.choice([1, 1, 2, 4])))
